@@ -1,4 +1,5 @@
 import Litep2pVerif.Proofs.Id.PeerId
+import Litep2pVerif.Model.Id.Keys
 import Litep2pVerif.Generated.Consts
 /-!
 # C18 — Peer ids are canonical, round-trip and match the libp2p reference
@@ -252,6 +253,114 @@ example : Multihash.fromBytes [0xff, 0xff, 0xff, 0xff, 0xff, 0xff, 0xff, 0xff, 0
     Multihash.fromBytes [0x80, 0x00] = .error (.varint .notMinimal) ∧
     Multihash.fromBytes [0x12] = .error (.varint .insufficient) := by decide
 
+/-! ## Ed25519 key material (src/crypto/ed25519.rs) -/
+
+section Keys
+open Litep2pVerif.Id.Keys
+
+/-- **Keypair bytes round-trip and the input is wiped.** The 64 bytes `Keypair::to_bytes` produces for
+a well-formed keypair parse back to the same keypair, and the caller's buffer is all zeros
+afterwards. -/
+theorem key_bytes_roundtrip (c : Curve) (k : Keypair) (hk : k.Wf c) :
+    keypairFromBytes c k.toBytes = (some k, zeros 64) := by
+  obtain ⟨hs, hp, hd, hv⟩ := hk
+  have hlen : k.toBytes.length = 64 := by simp [Keypair.toBytes, hs, hp]
+  have htake : k.toBytes.take 32 = k.secret := by simp [Keypair.toBytes, ← hs]
+  have hdrop : k.toBytes.drop 32 = k.pub := by simp [Keypair.toBytes, ← hs]
+  unfold keypairFromBytes
+  rw [if_pos hlen, htake, hdrop, hv, ← hd]
+  simp [hlen]
+
+example :
+    let c : Curve := ⟨fun s => s.map (· + 1), fun _ => true, fun _ _ _ => true⟩
+    let k : Keypair := ⟨List.replicate 32 7, List.replicate 32 8⟩
+    keypairFromBytes c k.toBytes = (some k, zeros 64) ∧ k.toBytes.length = 64 := by decide
+
+/-- **A keypair is accepted only if it is 64 bytes whose public half is the valid key derived from
+the secret half; a refused buffer is left untouched.** -/
+theorem keypair_parse_sound (c : Curve) (buf : Bytes) :
+    (∀ k buf', keypairFromBytes c buf = (some k, buf') →
+      buf.length = 64 ∧ k.toBytes = buf ∧ k.pub = c.derive k.secret ∧ c.validPoint k.pub = true ∧
+      k.secret.length = 32 ∧ buf' = zeros 64) ∧
+    (∀ buf', keypairFromBytes c buf = (none, buf') → buf' = buf) := by
+  unfold keypairFromBytes
+  constructor
+  · intro k buf' h
+    split at h
+    · rename_i hlen
+      split at h
+      · rename_i hc
+        simp only [Bool.and_eq_true, beq_iff_eq] at hc
+        cases h
+        refine ⟨hlen, by simp [Keypair.toBytes], hc.2.symm, hc.1, by simp [hlen], by rw [hlen]⟩
+      · cases h
+    · cases h
+  · intro buf' h
+    split at h
+    · split at h
+      · cases h
+      · cases h; rfl
+    · cases h; rfl
+
+example :
+    let c : Curve := ⟨fun s => s.map (· + 1), fun _ => true, fun _ _ _ => true⟩
+    keypairFromBytes c (List.replicate 32 7 ++ List.replicate 32 9) = (none, List.replicate 32 7 ++ List.replicate 32 9) ∧
+    keypairFromBytes c (List.replicate 63 7) = (none, List.replicate 63 7) ∧
+    keypairFromBytes c (List.replicate 65 7) = (none, List.replicate 65 7) := by decide
+
+/-- **Secret and public keys obey their length rules.** A secret key is accepted iff it has 32 bytes
+(the buffer is wiped on success and untouched otherwise); a public key is accepted iff it has 32
+bytes and is a curve point, and is returned unchanged. -/
+theorem key_length_rules (c : Curve) (buf : Bytes) :
+    (secretFromBytes buf = (some buf, zeros 32) ↔ buf.length = 32) ∧
+    (buf.length ≠ 32 → secretFromBytes buf = (none, buf)) ∧
+    (∀ k, publicFromBytes c buf = some k ↔ (k = buf ∧ buf.length = 32 ∧ c.validPoint buf = true)) := by
+  refine ⟨?_, ?_, ?_⟩
+  · unfold secretFromBytes
+    constructor
+    · intro h; split at h
+      · assumption
+      · cases h
+    · intro h; rw [if_pos h, h]
+  · intro h; unfold secretFromBytes; rw [if_neg h]
+  · intro k
+    unfold publicFromBytes
+    constructor
+    · intro h
+      split at h
+      · rename_i hc
+        simp only [Bool.and_eq_true, decide_eq_true_eq] at hc
+        cases h; exact ⟨rfl, hc.1, hc.2⟩
+      · cases h
+    · rintro ⟨rfl, hl, hv⟩
+      simp [hl, hv]
+
+example :
+    let c : Curve := ⟨id, fun k => k.head? != some 0xff, fun _ _ _ => true⟩
+    secretFromBytes (List.replicate 32 1) = (some (List.replicate 32 1), zeros 32) ∧
+    secretFromBytes (List.replicate 31 1) = (none, List.replicate 31 1) ∧
+    publicFromBytes c (List.replicate 32 1) = some (List.replicate 32 1) ∧
+    publicFromBytes c (List.replicate 32 0xff) = none ∧ publicFromBytes c (List.replicate 33 1) = none := by decide
+
+/-- **Signature verification is total and never accepts a malformed signature**: `verify` returns
+`true` only for a 64-byte signature the curve check accepts; every other input (any length, any
+bytes) yields `false` — there is no panic value. -/
+theorem verify_total (c : Curve) (key msg sig : Bytes) :
+    (verify c key msg sig = true ↔ sig.length = 64 ∧ c.sigValid key msg sig = true) ∧
+    (sig.length ≠ 64 → verify c key msg sig = false) := by
+  unfold verify
+  constructor
+  · simp
+  · intro h; simp [h]
+
+example :
+    let c : Curve := ⟨id, fun _ => true, fun _ _ s => s.head? == some 1⟩
+    verify c [] [1, 2] (List.replicate 64 1) = true ∧ verify c [] [1, 2] (List.replicate 64 2) = false ∧
+    verify c [] [1, 2] (List.replicate 63 1) = false ∧ verify c [] [1, 2] [] = false ∧
+    verify c [] [1, 2] (List.replicate 65 1) = false := by decide
+
+end Keys
+
 #print axioms derive_rule
 #print axioms derive_eq_reference
 #print axioms ed25519_id_form
@@ -265,5 +374,9 @@ example : Multihash.fromBytes [0xff, 0xff, 0xff, 0xff, 0xff, 0xff, 0xff, 0xff, 0
 #print axioms into_multiaddr_total
 #print axioms multiaddr_roundtrip
 #print axioms parse_total
+#print axioms key_bytes_roundtrip
+#print axioms keypair_parse_sound
+#print axioms key_length_rules
+#print axioms verify_total
 
 end Litep2pVerif.Props.C18
